@@ -61,12 +61,20 @@ def sanitize_variable_names(
 
     # Back-tick quoted names are matched whole (they may contain quote
     # characters); a lone back-tick (never closed) is passed through.
+    assigned: dict[str, str] = {}
     for expr_part in expr_parts:
         if len(expr_part) >= 2 and expr_part[0] == "`" and expr_part[-1] == "`":
             variable_name = expr_part[1:-1]
-            new_name = sanitize_variable_name(
-                variable_name, env, template=template, reserved=reserved
-            )
+            if variable_name not in assigned:
+                # Distinct names get distinct aliases (`a b` and `a-b` both
+                # sanitize to a_b).
+                assigned[variable_name] = sanitize_variable_name(
+                    variable_name,
+                    env,
+                    template=template,
+                    reserved=reserved | set(assigned.values()),
+                )
+            new_name = assigned[variable_name]
             aliases[new_name] = variable_name
             sanitized_expr.append(f" {new_name} ")
         else:
